@@ -75,6 +75,9 @@ IDSET = [
     ("clear", "IdSet::clear (then two inserts)", (["q_clear"], None, B_Q3), (["t_clear"], None, B_H3)),
     ("iter", "IdSet::iter / IntoIterator for &IdSet", (["q_iter"], None, "the single history [a,b] (iterator adaptors cost CBMC ~100 s per history)"),
      (["t_iter"], None, B_Q3)),
+    ("clear_refill_iter", "IdSet::clear, then insert past the retained capacity, then iter / IntoIterator for &IdSet",
+     (["q_clear_refill_iter"], None, "the single history [a], clear, three distinct inserts (a full chunk is retired into old_bufs[0] after the clear), iterate"),
+     (["q_clear_refill_iter"], None, "the single history [a], clear, three distinct inserts (a full chunk is retired into old_bufs[0] after the clear), iterate")),
     ("into_iter", "IntoIterator for IdSet", (["q_into_iter"], None, "the single history [a,b] (iterator adaptors cost CBMC ~100 s per history)"),
      (["t_into_iter_a", "t_into_iter_b", "t_into_iter_c"], None, B_Q3 + " (one harness per history)")),
     ("clone", "Clone for IdSet", (["q_clone"], None, B_Q3 + ", then one insert into the clone"),
